@@ -75,7 +75,7 @@ func c04Plans(tier string) []faultPlan {
 		}
 	}
 	for i := 0; i < fan; i++ {
-		out = append(out, faultPlan{i, "fanout", []string{"rsend-sticky", "cancelR", "cancelS", "srecv-sticky", "ssend-sticky", "rrecv-eof"}[i%6], 0, i % 2})
+		out = append(out, faultPlan{i, "fanout", []string{"rsend-sticky", "cancelR", "cancelS", "srecv-sticky", "ssend-sticky", "rrecv-eof", "notify-backlog", "hasher-backlog", "cancelR-backlog", "teardown-backlog"}[i%10], 0, (i / 10) % 2})
 	}
 	return out
 }
@@ -547,7 +547,92 @@ func c04Sigkill(c *core.Ctx, r *core.Result, plan faultPlan, src *tree.Tree, des
 // ---------------------------------------------------------------------------
 // large fan-out: >132 requests pending when the fault hits
 
+// c04Backlog: a receiver-side fault (callback error, cancellation, teardown)
+// hits while the receiver is fully back-pressured: its first user callback is
+// slow, so the diff stops consuming and the announced entries pile up in
+// every internal queue until the receive loop itself blocks.
+func c04Backlog(c *core.Ctx, r *core.Result, plan faultPlan) *core.Result {
+	R := c.R
+	src := &tree.Tree{}
+	n := R.Range(600, 900)
+	for i := 0; i < n; i++ {
+		if i%3 == 0 {
+			src.Entries = append(src.Entries, tree.Entry{Path: fmt.Sprintf("e%05d", i), Type: tree.Dir, Perm: 0755, Mtime: 1e18})
+		} else {
+			src.Entries = append(src.Entries, tree.Entry{Path: fmt.Sprintf("e%05d", i), Type: tree.File, Perm: 0644, Mtime: 1e18, Data: R.Bytes(R.Intn(50))})
+		}
+	}
+	src.Sort()
+	dest := filepath.Join(c.Dir, "dest")
+	os.Mkdir(dest, 0755)
+	var pair *wire.Pair
+	fired := atomic.Bool{}
+	var once sync.Once
+	// the slow callback: wait (wall clock shapes the workload only) until the
+	// stream shows no progress any more, then inject the fault
+	stall := func() {
+		last, same := int64(-1), 0
+		for i := 0; i < 400 && same < 8; i++ {
+			time.Sleep(10 * time.Millisecond)
+			if q := pair.Seq(); q == last {
+				same++
+			} else {
+				last, same = q, 0
+			}
+		}
+	}
+	nrec := newNotifyRec()
+	hs := newHasher()
+	var inject func() error
+	switch plan.Mode {
+	case "notify-backlog", "hasher-backlog":
+		inject = func() error { return errInjected }
+	case "cancelR-backlog":
+		inject = func() error { pair.R.Cancel(); return nil }
+	case "teardown-backlog":
+		inject = func() error { pair.Teardown(); return nil }
+	}
+	var cbErr error
+	hook := func() {
+		once.Do(func() {
+			stall()
+			fired.Store(true)
+			cbErr = inject()
+		})
+	}
+	if plan.Mode == "hasher-backlog" {
+		hs.Hook = hook
+		hs.ErrAt = 0
+	} else {
+		nrec.Hook = hook
+		if plan.Mode == "notify-backlog" {
+			nrec.ErrAt = 0
+		}
+	}
+	_ = cbErr
+	cfg := wire.Config{Cap: []int{0, 8, 64}[plan.Tree%3]}
+	res := runSync(syncOpt{Cfg: cfg, Src: newSynthFS(src), Dest: dest, TeardownWhenStuck: true, Timeout: 90 * time.Second,
+		OnPair: func(p *wire.Pair) { pair = p },
+		Recv:   fsutil.ReceiveOpt{NotifyHashed: nrec.fn, ContentHasher: hs.fn}})
+	// how far was the receiver back-pressured?
+	nstat := 0
+	for _, e := range res.Pair.Log() {
+		if e.End == "R" && e.Op == "recv" && e.Type == int32(types.PACKET_STAT) && e.Err == "" {
+			nstat++
+		}
+	}
+	r.AddSet("backlog_stats_received_when_fault_hit", fmt.Sprintf("%s:%d", plan.Mode, nstat))
+	if nstat >= 259 && fired.Load() {
+		r.Count("backlog_runs_with_full_receiver_queues", 1)
+	}
+	c04Judge(c, r, plan, res, src, dest, fired.Load())
+	return r
+}
+
 func c04Fanout(c *core.Ctx, r *core.Result, plan faultPlan) *core.Result {
+	if strings.HasSuffix(plan.Mode, "-backlog") {
+		return c04Backlog(c, r, plan)
+	}
 	R := c.R
 	src := fanoutTree(R, R.Range(200, 320))
 	dest := filepath.Join(c.Dir, "dest")
